@@ -515,7 +515,7 @@ def grid_extra() -> str:
 # API level
 
 PATTERNS = ["{{a}} + {{b}}", "{{x}} = {{y}}", "{{f}}({{x}})", "return {{x}}", "pass",
-            ast.FunctionDef, ast.ClassDef, ast.Call, (ast.Name, ast.Constant), ast.stmt]
+            ast.FunctionDef, ast.ClassDef, ast.Call, (ast.Name, ast.Constant), ast.stmt, ast.Module]
 STATEMENTS = ["x + y < 3", "u + v", "f(g(1))", "a = b + c", "print(len(q))[0]", "foo(1)", "x = 1", "pass",
               "def f():\n    return 1 + 2", "@dec\ndef g(a):\n    return h(a)", "class A:\n    y = f(2)",
               "é = 'é' + f(ß)", "s = '\x0c'; t = f(s) + 1"]
@@ -532,7 +532,7 @@ def pattern_name(p) -> str:
 def api_family():
     """deterministic (pattern, source) family: all single statements and ordered pairs of statements,
     some line-end / trailing-newline variants"""
-    srcs = []
+    srcs = ["", "\n", "# only a comment\n", "# c"]      # modules without statements: match/fullmatch give None
     for a in STATEMENTS:
         srcs.append(a + "\n")
     for a, b in itertools.permutations(STATEMENTS, 2):
@@ -642,7 +642,7 @@ def api_oracle(o, known_spans=()) -> str | None:
     return None
 
 
-def run_cli(wd: Path, pattern: str, sources: list[str]):
+def run_cli(wd: Path, pattern: str, sources: list[str], mods_pm=None):
     """`python -m pyrefact.pattern_matching find <pattern> <dir>`: {file index: [(lineno, col, text)]}"""
     d = wd / ("cli_" + str(abs(hash(pattern)) % 10**8))
     d.mkdir(parents=True, exist_ok=True)
@@ -652,6 +652,22 @@ def run_cli(wd: Path, pattern: str, sources: list[str]):
     r = subprocess.run([sys.executable, "-m", "pyrefact.pattern_matching", "find", pattern, str(d)],
                        capture_output=True, env=env, timeout=300)
     out = r.stdout.decode("utf-8")
+    # the same through main() without arguments (argv taken from sys.argv), in process
+    import contextlib as _cl
+    import locale as _lc
+    if _lc.getpreferredencoding(False).lower().replace("-", "") != "utf8":
+        mods_pm = None      # read_text() of the in-process run would not decode the files the way the subprocess does
+    buf = io.StringIO()
+    old_argv = sys.argv
+    try:
+        sys.argv = ["pyrefind", "find", pattern, str(d)]
+        with _cl.redirect_stdout(buf):
+            rc_inproc = mods_pm.main() if mods_pm is not None else r.returncode
+    except BaseException as e:  # noqa (argparse exits with SystemExit)
+        rc_inproc = f"{type(e).__name__}: {e}"
+    finally:
+        sys.argv = old_argv
+    inproc_differs = mods_pm is not None and (rc_inproc != r.returncode or buf.getvalue() != out)
     res = {i: [] for i in range(len(sources))}
     import re as _re
     bad = []
@@ -664,6 +680,9 @@ def run_cli(wd: Path, pattern: str, sources: list[str]):
             continue
         res[int(m.group(1))].append((int(m.group(2)), int(m.group(3)), m.group(4)))
     texts = [(d / f"m{i:04d}.py").read_text(encoding="utf-8") for i in range(len(sources))]
+    if inproc_differs:
+        bad.append(f"main() with sys.argv (in process) returned {rc_inproc!r} / printed {len(buf.getvalue())} characters; "
+                   f"the subprocess returned {r.returncode} / printed {len(out)} characters")
     return res, texts, bad, r.returncode, r.stderr.decode("utf-8", "replace")[-800:]
 
 
@@ -1045,7 +1064,7 @@ def _check(run: common.Run):
     cli_srcs = api_srcs[:60] + api_srcs[-(20 if quick else 200):]
     cli_cases = []
     for pat in ["{{f}}({{x}})", "{{x}} = {{y}}", "{{a}} + {{b}}"]:
-        res, texts, badlines, rc, err = run_cli(wd, pat, cli_srcs)
+        res, texts, badlines, rc, err = run_cli(wd, pat, cli_srcs, mods["pattern_matching"])
         if badlines:
             cli_problems.append({"pattern": pat, "returncode": rc, "unparsed_lines": badlines[:3], "stderr": err})
         if rc != 0:
